@@ -23,7 +23,11 @@ def vmap(fun, in_axes=0, out_axes=0):
             lj = [l[j] if i in pos else l for i, l in enumerate(leaves)]
             outs.append(fun(*np_fns.tree_unflatten(treedef, lj)))
         if b == 0:
-            raise ValueError("vmap over empty axis")
+            # empty batch: learn the output structure from one evaluation on zeros, return empty stacks
+            lz = [np.zeros(l.shape[1:], dtype=l.dtype) if i in pos else l for i, l in enumerate(leaves)]
+            o = fun(*np_fns.tree_unflatten(treedef, lz))
+            ol, ot = np_fns.tree_flatten(o)
+            return np_fns.tree_unflatten(ot, [np.zeros((0, ) + np.asarray(x).shape, dtype=np.asarray(x).dtype) for x in ol])
         oleaves = [np_fns.tree_flatten(o)[0] for o in outs]
         otree = np_fns.tree_flatten(outs[0])[1]
         stacked = [np.stack([np.asarray(ol[i]) for ol in oleaves]) for i in range(len(oleaves[0]))]
